@@ -1,7 +1,7 @@
 from props.common import *
 from props.c05 import adv_size
 
-FAULTS_FAIL = ("status", "empty", "hang", "midhang", "trickle", "reset", "stall", "abort", "shortcl", "finmid")
+FAULTS_FAIL = ("status", "empty", "hang", "midhang", "trickle", "reset", "stall", "abort", "shortcl", "finmid", "hshang")
 
 def oracle_upfault(case, impl):
     """C03 direct checks: completion within timeout + slack; SERVFAIL for every failing fault;
@@ -22,6 +22,9 @@ def oracle_upfault(case, impl):
                 and rep[4:6] in (b"\x00\x00", b"\x00\x01") and rep[6:12] == bytes(6) and len(rep) < 300)
     if which == "doh" and fault[0] in FAULTS_FAIL and not servfail:
         return "upstream fault %s did not produce SERVFAIL" % fault[0]
+    if which == "doh" and fault[0] == "ok" and 12 <= int(fault[1]) <= 65535 and servfail:
+        return ("the upstream serves this request a complete %s-byte message but the client got SERVFAIL "
+                "(a query issued after the upstream behaves again is not answered normally)" % fault[1])
     if which == "dns53":
         good = [d for d in (fault[0].split(",") if fault[0] != "none" else [])
                 if d.split(":")[1] in ("match", "garbage") and int(d.split(":")[0]) < 300 and int(d.split(":")[2]) >= 2]
